@@ -104,6 +104,34 @@ def tilde_target_section(res, count):
                 res["violations"].append(("exit0-but-local-file-not-on-hub", f"hub-sync to {HOST}:{root_spelling} exited 0 but <remote home>/hubT does not hold the local files (stray directories in the remote home: {stray})", rep))
 
 
+def staging_shaped_user_file_section(res, count):
+    """C13: a client tree holding files whose NAMES look like the hub's staging names (`ledger.20240917.copia-tmp`, a number that is
+    no live pid; `x.copia-tmp`) — they are user files: pushed, listed and kept like any other. Alice pushes them; Bob pushes an
+    unrelated tree ("hub files at other paths are untouched"); Alice's immediate second run sends nothing (seed C13-P: before each
+    List the hub swept "orphaned staging files" by name shape — Bob's List deleted Alice's committed file)."""
+    with Sandbox("C13") as sb:
+        alice = {"exports/ledger.20240917.copia-tmp": b"ledger of 17 Sep\n", "plain.copia-tmp": b"plain\n", "notes.txt": b"alice's notes\n", "backup.4199999.copia-tmp": bytes(range(256)) * 9}
+        bob = {"bob/readme.md": b"bob was here\n"}
+        la, lb = sb.path("alice"), sb.path("bob")
+        sb.write_tree(la, alice); sb.write_tree(lb, bob)
+        hub = os.path.join(sb.home, "hubS")
+        rc1, o1, e1 = sb.run(["hub-sync", la, f"{HOST}:hubS"], timeout=60)
+        t1 = H.hub_tree(hub) if os.path.isdir(hub) else {}
+        rc2, o2, e2 = sb.run(["hub-sync", lb, f"{HOST}:hubS"], timeout=60)
+        t2 = H.hub_tree(hub) if os.path.isdir(hub) else {}
+        rc3, o3, e3 = sb.run(["hub-sync", la, f"{HOST}:hubS"], timeout=60)
+        c3 = parse_counts(o3.decode("utf-8", "replace"))
+        count("staging-shaped-user-files")
+        rep = {"alice": sorted(alice), "bob": sorted(bob), "rc": [rc1, rc2, rc3], "hub_after_alice": sorted(t1), "hub_after_bob": sorted(t2),
+               "alice_second_run": o3.decode("utf-8", "replace")[-200:], "stderr": (e1 + e2 + e3).decode("utf-8", "replace")[-300:]}
+        if rc1 == 0 and any(t1.get(k) != v for k, v in alice.items()):
+            res["violations"].append(("exit0-but-local-file-not-on-hub", f"alice's hub-sync exited 0 but the hub lacks {sorted(k for k, v in alice.items() if t1.get(k) != v)}", rep))
+        if rc1 == 0 and rc2 == 0 and any(t2.get(k) != t1.get(k) for k in t1):
+            res["violations"].append(("other-clients-hub-file-disturbed", f"bob's hub-sync of an unrelated tree changed or removed hub files he does not have: {sorted(k for k in t1 if t2.get(k) != t1.get(k))}", rep))
+        if rc1 == 0 and rc2 == 0 and rc3 == 0 and c3 is not None and c3[0] != 0:
+            res["violations"].append(("second-run-sends", f"alice's second run, nothing changed locally, sent {c3[0]} file(s)", rep))
+
+
 def h6(data_list):
     """a content as the model sees it: the first 6 bytes of its BLAKE3 (= the 12 hex digits of a conflict-copy name)"""
     return [h[:12] for h in blake3_hex(data_list)]
@@ -323,6 +351,7 @@ def run(pid, tier, seed, rundir, model_run):
         res["broken"].append(f"C13/corr/multi-client: hub tree / counters after {mdis} of {len(mq)} real runs differ from Model/HubMulti (theorems C13.step_lands, step_overwrites_only_listed, run_steps_safe)")
     ntgt, tdis = target_section(rng, tier == "thorough", rundir, model_run, res, count)
     tilde_target_section(res, count)
+    staging_shaped_user_file_section(res, count)
     tdis += mdis
     res.update(evaluations=nrun + ntgt, distinct_nontrivial=n, n_disagreements=tdis, n_oracle_failures=len(res["violations"]),
                rule="hub trees of 0–4 files and local trees of 0–7 files over names incl. nested, spaces, `.copia`-prefixed user files, conflict-looking names; some local files already on the hub (same / changed); "
